@@ -108,6 +108,7 @@ type interpreter struct {
 	tickers            []chan value
 	hraftIndex         int
 	hraftSink          *hraftNode // node whose Snapshot() is being persisted
+	syncMaps           map[*value]*amap // contents of sync.Map values (model)
 	freePort           int
 	spinLoads          map[*value]int
 	spinThread         *thread
